@@ -191,6 +191,14 @@ def run(gen, gen_path, externs, extra_flags=(), timeout=1500, verify_fn=None, ex
                     break
         if fnk is None and f.markers:
             fnk = gen.markers[f.markers[0]]['fn']
+        if fnk is None:
+            # failure inside inserted text (lemma, theorem, canary): name the enclosing fn
+            for sp_ in d.get('spans', []):
+                nm = enclosing_fn_name(gen, sp_['byte_start'])
+                if nm:
+                    fnk = 'inserted:' + nm
+                    if sp_.get('is_primary'):
+                        break
         f.fn = fnk
         # tags: from clause markers if any, else the function's default tags
         tg = set()
@@ -227,6 +235,12 @@ def run(gen, gen_path, externs, extra_flags=(), timeout=1500, verify_fn=None, ex
             res.status = 'undecided'
             res.reason = 'verus did not succeed and gave no diagnostic: ' + p.stderr[-400:]
     return res
+
+
+def enclosing_fn_name(gen, byte_off):
+    b = gen.text.encode()[:byte_off].decode(errors='ignore')
+    ms = list(re.finditer(r'\bfn\s+(\w+)', b))
+    return ms[-1].group(1) if ms else None
 
 
 def _where(gen, d):
